@@ -392,6 +392,17 @@ def worker(job):
         if prop == 'C07':
             case['config']['cdx'] = True
             vary_content_types(rng, case)
+        if prop == 'C05' and not case.get('overlap') and not case.get('whole_only') and rng.random() < 0.05:
+            # the last response is preceded by an interim 100 Continue / 103 Early Hints message.  Which of the two messages
+            # the client takes for the response is C08's subject; whatever it archives must be a valid record whose payload
+            # digest is that of the bytes after the block's first header block
+            from harness import httpgen
+            last = httpgen.gen_response(rng, allow=['interim'])
+            last['then'] = 'eof'
+            case['seq'][-1] = last
+            case.pop('stall_last_at', None)
+            case['config']['dedup'] = False       # (the dedup seeding presumes which message is the response)
+            part.count('cases_ending_with_an_interim_response')
         if case.get('overlap'):
             obs = warcwork.run_case(case)
             part.evaluations += 1
@@ -402,7 +413,7 @@ def worker(job):
         elif prop == 'C04':
             # same script under several segmentations: blocks must be identical (metamorphic)
             ref_blocks = None
-            for mode in ('whole', 'bytes', 'cut', 'random'):
+            for mode in (('whole',) if case.get('whole_only') else ('whole', 'bytes', 'cut', 'random')):
                 c2 = dict(case, seg_mode=mode, seg_seed=case['seg_seed'] + 1)
                 obs = warcwork.run_case(c2)
                 part.evaluations += 1
